@@ -7,6 +7,9 @@ import PygProofs.Lemmas.AlignLemmas
 import PygProofs.Lemmas.AlignAsOf
 import PygProofs.Lemmas.AlignTree
 import PygProofs.Lemmas.FillIndep
+import PygProofs.Lemmas.AlignLimit
+import PygProofs.Lemmas.AlignFill
+import PygProofs.Props.C12
 
 namespace Pyg.Props.C03
 open Pyg Pyg.Fill Pyg.Align
@@ -677,6 +680,414 @@ theorem presync_call_index (j : Join) (ls : List Leaf) :
   | how h => rfl
   | explicit ix => simp [dfIndexJ, List.isEmpty_iff]
 
+
+/-! ### `limit` on the as-of join (`df_reindex(ts, index, method, limit)`; `df_sync` / `presync` pass no limit on)
+
+pandas' `reindex(index, method, limit)` is modelled by a walk along the requested labels with a counter (`limAux`).  The
+theorems say what that walk computes without a counter: the requested label `t` gets the column's last (next) non-NaN
+observation `(s, v)` iff `s = t` - the timestamp survives - or FEWER THAN `limit` REQUESTED labels lie strictly between `s` and
+`t`.  The limit counts requested labels, not days and not rows of the source. -/
+
+/-- without a limit the walk is the as-of join of `reindex_ffill` / `reindex_bfill` -/
+theorem reindex_limit_none (f : Frame) (idx : List Int) (d : Dir) :
+    reindexFrameL f idx d Option.none = reindexFrame f idx (some d) := reindexFrameL_nolimit f idx d
+
+/-- ffill with a limit, every column, against the independent reference `lastObsAt` (label and value of the last non-NaN
+observation at or before `t`, characterised by `last_observation_at`) -/
+theorem reindex_ffill_limit (f : Frame) (idx : List Int) (lim : Option Nat) (hs : f.Sorted) (hi : SortedL idx) :
+    (reindexFrameL f idx .ffill lim).cols = f.cols.map fun c => (c.1, idx.map (ffillLim lim idx f.idx c.2)) := by
+  simp only [reindexFrameL]
+  apply List.map_congr_left
+  intro c _
+  rw [asofColLim_ffill lim f.idx c.2 idx hs hi]
+
+theorem reindex_bfill_limit (f : Frame) (idx : List Int) (lim : Option Nat) (hi : SortedL idx) :
+    (reindexFrameL f idx .bfill lim).cols = f.cols.map fun c => (c.1, idx.map (bfillLim lim idx f.idx c.2)) := by
+  simp only [reindexFrameL]
+  apply List.map_congr_left
+  intro c _
+  rw [asofColLim_bfill lim f.idx c.2 idx hi]
+
+/-- the cells by cases (`ffillLim` / `bfillLim` unfolded) -/
+theorem limit_cell (lim : Option Nat) (idx ix : List Int) (c : Col) (t : Int) :
+    ffillLim lim idx ix c t = (match lastObsAt ix c t with
+      | Option.none => Option.none
+      | some (s, v) => if s = t ∨ within lim (between idx s t) = true then some v else Option.none) ∧
+    bfillLim lim idx ix c t = (match firstObsAt ix c t with
+      | Option.none => Option.none
+      | some (s, v) => if s = t ∨ within lim (between idx t s) = true then some v else Option.none) := by
+  constructor
+  · cases h : lastObsAt ix c t with
+    | none => rw [ffillLim_none h]
+    | some sv => obtain ⟨s, v⟩ := sv; rw [ffillLim_some h]
+  · cases h : firstObsAt ix c t with
+    | none => rw [bfillLim_none h]
+    | some sv => obtain ⟨s, v⟩ := sv; rw [bfillLim_some h]
+
+/-- what the pair references are, by positions -/
+theorem last_observation_at (ix : List Int) (c : Col) (t s v : Int) :
+    lastObsAt ix c t = some (s, v) ↔
+      ∃ i, ix[i]? = some s ∧ s ≤ t ∧ c[i]? = some (some v) ∧
+        ∀ (j : Nat) (s' w : Int), i < j → ix[j]? = some s' → s' ≤ t → c[j]? ≠ some (some w) :=
+  lastObsAt_iff ix c t s v
+
+theorem next_observation_at (ix : List Int) (c : Col) (t s v : Int) :
+    firstObsAt ix c t = some (s, v) ↔
+      ∃ i, ix[i]? = some s ∧ t ≤ s ∧ c[i]? = some (some v) ∧
+        ∀ (j : Nat) (s' w : Int), j < i → ix[j]? = some s' → t ≤ s' → c[j]? ≠ some (some w) :=
+  firstObsAt_iff ix c t s v
+
+/-- the composed statement for ONE cell under `limit = l`: column `j`, requested label `idx[k] = t`.  The cell is the value
+`v` iff `v` is the column's last non-NaN observation at or before `t`, sitting at label `s`, AND (`s = t` or fewer than `l`
+requested labels lie strictly between `s` and `t`). -/
+theorem reindex_ffill_limit_cell (f : Frame) (idx : List Int) (l : Nat) (hs : f.Sorted) (hi : SortedL idx) (j k : Nat)
+    (c : String × Col) (t : Int) (hc : f.cols[j]? = some c) (hk : idx[k]? = some t) :
+    ∃ r, (reindexFrameL f idx .ffill (some l)).cols[j]? = some (c.1, r) ∧ r.length = idx.length ∧
+      ∀ v, r[k]? = some (some v) ↔
+        ∃ (i : Nat) (s : Int), f.idx[i]? = some s ∧ s ≤ t ∧ c.2[i]? = some (some v) ∧
+          (∀ (j' : Nat) (s' w : Int), i < j' → f.idx[j']? = some s' → s' ≤ t → c.2[j']? ≠ some (some w)) ∧
+          (s = t ∨ between idx s t < l) := by
+  refine ⟨idx.map (ffillLim (some l) idx f.idx c.2), by rw [reindex_ffill_limit f idx (some l) hs hi]; simp [hc], by simp, ?_⟩
+  intro v
+  simp only [List.getElem?_map, hk, Option.map_some, Option.some.injEq]
+  cases ho : lastObsAt f.idx c.2 t with
+  | none =>
+    rw [ffillLim_none ho]
+    constructor
+    · intro h; cases h
+    · rintro ⟨i, s, h1, h2, h3, h4, _⟩
+      have := (lastObsAt_iff f.idx c.2 t s v).mpr ⟨i, h1, h2, h3, h4⟩
+      rw [ho] at this; cases this
+  | some sv =>
+    obtain ⟨s0, v0⟩ := sv
+    rw [ffillLim_some ho]
+    simp only [within, decide_eq_true_eq]
+    constructor
+    · intro h
+      split at h
+      · rename_i hcond
+        cases h
+        obtain ⟨i, h1, h2, h3, h4⟩ := (lastObsAt_iff f.idx c.2 t s0 v).mp ho
+        exact ⟨i, s0, h1, h2, h3, h4, hcond⟩
+      · cases h
+    · rintro ⟨i, s, h1, h2, h3, h4, h5⟩
+      have := (lastObsAt_iff f.idx c.2 t s v).mpr ⟨i, h1, h2, h3, h4⟩
+      rw [ho] at this; cases this
+      simp [h5]
+
+theorem reindex_bfill_limit_cell (f : Frame) (idx : List Int) (l : Nat) (hi : SortedL idx) (j k : Nat)
+    (c : String × Col) (t : Int) (hc : f.cols[j]? = some c) (hk : idx[k]? = some t) :
+    ∃ r, (reindexFrameL f idx .bfill (some l)).cols[j]? = some (c.1, r) ∧ r.length = idx.length ∧
+      ∀ v, r[k]? = some (some v) ↔
+        ∃ (i : Nat) (s : Int), f.idx[i]? = some s ∧ t ≤ s ∧ c.2[i]? = some (some v) ∧
+          (∀ (j' : Nat) (s' w : Int), j' < i → f.idx[j']? = some s' → t ≤ s' → c.2[j']? ≠ some (some w)) ∧
+          (s = t ∨ between idx t s < l) := by
+  refine ⟨idx.map (bfillLim (some l) idx f.idx c.2), by rw [reindex_bfill_limit f idx (some l) hi]; simp [hc], by simp, ?_⟩
+  intro v
+  simp only [List.getElem?_map, hk, Option.map_some, Option.some.injEq]
+  cases ho : firstObsAt f.idx c.2 t with
+  | none =>
+    rw [bfillLim_none ho]
+    constructor
+    · intro h; cases h
+    · rintro ⟨i, s, h1, h2, h3, h4, _⟩
+      have := (firstObsAt_iff f.idx c.2 t s v).mpr ⟨i, h1, h2, h3, h4⟩
+      rw [ho] at this; cases this
+  | some sv =>
+    obtain ⟨s0, v0⟩ := sv
+    rw [bfillLim_some ho]
+    simp only [within, decide_eq_true_eq]
+    constructor
+    · intro h
+      split at h
+      · rename_i hcond
+        cases h
+        obtain ⟨i, h1, h2, h3, h4⟩ := (firstObsAt_iff f.idx c.2 t s0 v).mp ho
+        exact ⟨i, s0, h1, h2, h3, h4, hcond⟩
+      · cases h
+    · rintro ⟨i, s, h1, h2, h3, h4, h5⟩
+      have := (firstObsAt_iff f.idx c.2 t s v).mpr ⟨i, h1, h2, h3, h4⟩
+      rw [ho] at this; cases this
+      simp [h5]
+
+/-- "at each surviving timestamp a series keeps exactly its original value" holds under every limit: a non-NaN cell at a
+requested timestamp the series has is its own last and next observation with `s = t` -/
+theorem reindex_limit_keeps (f : Frame) (idx : List Int) (lim : Option Nat) (hs : f.Sorted)
+    (c : String × Col) (i : Nat) (t v : Int) (hfi : f.idx[i]? = some t) (hv : c.2[i]? = some (some v)) :
+    ffillLim lim idx f.idx c.2 t = some v ∧ bfillLim lim idx f.idx c.2 t = some v := by
+  have hp := List.pairwise_iff_getElem.mp hs
+  have hil := getElem?_some_lt hfi
+  have h1 : lastObsAt f.idx c.2 t = some (t, v) := by
+    refine (lastObsAt_iff f.idx c.2 t t v).mpr ⟨i, hfi, Int.le_refl _, hv, ?_⟩
+    intro j s' w hj hjs hle
+    have hjl := getElem?_some_lt hjs
+    have := hp i j hil hjl hj
+    rw [List.getElem?_eq_getElem hil] at hfi; rw [List.getElem?_eq_getElem hjl] at hjs
+    simp at hfi hjs; omega
+  have h2 : firstObsAt f.idx c.2 t = some (t, v) := by
+    refine (firstObsAt_iff f.idx c.2 t t v).mpr ⟨i, hfi, Int.le_refl _, hv, ?_⟩
+    intro j s' w hj hjs hle
+    have hjl := getElem?_some_lt hjs
+    have := hp j i hjl hil hj
+    rw [List.getElem?_eq_getElem hil] at hfi; rw [List.getElem?_eq_getElem hjl] at hjs
+    simp at hfi hjs; omega
+  rw [ffillLim_some h1, bfillLim_some h2]; simp
+
+/-- a limit only blanks cells: whatever the limited as-of join puts into a cell is what the unlimited one (`reindex_ffill` /
+`reindex_bfill`: `lastObs` / `firstObs`) puts there -/
+theorem reindex_limit_sub (ix : List Int) (c : Col) (idx : List Int) (lim : Option Nat) (t v : Int) :
+    (ffillLim lim idx ix c t = some v → lastObs ix c t = some v) ∧
+    (bfillLim lim idx ix c t = some v → firstObs ix c t = some v) := by
+  constructor
+  · rw [← lastObsAt_snd]
+    cases h : lastObsAt ix c t with
+    | none => rw [ffillLim_none h]; simp
+    | some sv => obtain ⟨s, w⟩ := sv; rw [ffillLim_some h]; simp only [Option.map_some]; intro h'; split at h' <;> simp_all
+  · rw [← firstObsAt_snd]
+    cases h : firstObsAt ix c t with
+    | none => rw [bfillLim_none h]; simp
+    | some sv => obtain ⟨s, w⟩ := sv; rw [bfillLim_some h]; simp only [Option.map_some]; intro h'; split at h' <;> simp_all
+
+/-! ### method lists and numeric methods: the first method decides the kind of join, the TAIL goes through `df_fillna` (C12) -/
+
+/-- a list that starts with ffill / bfill: as-of join (with the limit), then C12's `fillna` of the REST of the list with the
+same limit.  All C12 theorems (`ffill_limit`, `const_fill`, `fillna_keeps`, `fillna_rows_kept`, ...) apply to that second stage. -/
+theorem reindex_then_fill (f : Frame) (idx : List Int) (rest : List Method) (lim : Option Nat) (hl : limOk lim = true) :
+    reindexFill f idx (.ffill :: rest) lim = fillna rest lim (reindexFrameL f idx .ffill lim) ∧
+    reindexFill f idx (.bfill :: rest) lim = fillna rest lim (reindexFrameL f idx .bfill lim) := by
+  simp [reindexFill, hl]
+
+/-- any other list (a number, 'ffill_na', ['nona', ...], nothing): plain label lookup, then the WHOLE list through `fillna` -/
+theorem reindex_other_then_fill (f : Frame) (idx : List Int) (ms : List Method) (lim : Option Nat)
+    (h : ms.head? ≠ some .ffill ∧ ms.head? ≠ some .bfill) :
+    reindexFill f idx ms lim = fillna ms lim (reindexFrame f idx Option.none) := by
+  cases ms with
+  | nil => rfl
+  | cons m rest => cases m <;> simp_all [reindexFill]
+
+/-- `limit = 0` with ffill / bfill in front is rejected (pandas: "Limit must be greater than 0") -/
+theorem reindex_limit_zero (f : Frame) (idx : List Int) (rest : List Method) :
+    reindexFill f idx (.ffill :: rest) (some 0) = .error .value ∧ reindexFill f idx (.bfill :: rest) (some 0) = .error .value := by
+  simp [reindexFill, limOk]
+
+theorem reindexFrameL_wf (f : Frame) (idx : List Int) (d : Dir) (lim : Option Nat) :
+    (reindexFrameL f idx d lim).idx = idx ∧ (reindexFrameL f idx d lim).names = f.names ∧ (reindexFrameL f idx d lim).Rect := by
+  refine ⟨rfl, by simp [reindexFrameL, Frame.names, List.map_map, Function.comp_def], ?_⟩
+  intro c hc
+  simp only [reindexFrameL, List.mem_map] at hc
+  obtain ⟨c', _, rfl⟩ := hc
+  exact asofColLim_length d lim f.idx c'.2 idx
+
+/-- a list of FILLING methods (no 'nona' / 'fnna'; the statement's None / ffill / bfill are the lists `[]`, `[ffill]`,
+`[bfill]`): the result sits on the requested index with the columns of the input, and every non-NaN cell the join stage
+produced - in particular every original value at a surviving timestamp (`reindex_limit_keeps`, `reindex_keep`) - is still there -/
+theorem reindex_fill_list (f g : Frame) (idx : List Int) (ms : List Method) (lim : Option Nat)
+    (hms : ∀ m ∈ ms, m ≠ .fnna ∧ m ≠ .nona) (hi : SortedL idx) (h : reindexFill f idx ms lim = .ok g) :
+    ∃ g0 rest, fillna rest lim g0 = .ok g ∧
+      ((ms = .ffill :: rest ∧ g0 = reindexFrameL f idx .ffill lim) ∨ (ms = .bfill :: rest ∧ g0 = reindexFrameL f idx .bfill lim) ∨
+       (ms = rest ∧ g0 = reindexFrame f idx Option.none)) ∧
+      g.idx = idx ∧ g.names = f.names ∧
+      ∀ j i v, C12.cell g0 j i = some (some v) → C12.cell g j i = some (some v) := by
+  have fin : ∀ g0 rest, (∀ m ∈ rest, m ≠ .fnna ∧ m ≠ .nona) → g0.idx = idx → g0.names = f.names → g0.Rect →
+      fillna rest lim g0 = .ok g →
+      g.idx = idx ∧ g.names = f.names ∧ ∀ j i v, C12.cell g0 j i = some (some v) → C12.cell g j i = some (some v) := by
+    intro g0 rest hr h1 h2 h3 h4
+    obtain ⟨a, b, c⟩ := C12.fillna_keeps rest lim g0 g hr (by unfold Frame.Sorted; rw [h1]; exact hi) h3 h4
+    exact ⟨a.trans h1, b.trans h2, c⟩
+  cases ms with
+  | nil =>
+    have h' : fillna [] lim (reindexFrame f idx Option.none) = .ok g := h
+    obtain ⟨w1, w2, w3⟩ := reindex_index f idx Option.none
+    exact ⟨_, [], h', Or.inr (Or.inr ⟨rfl, rfl⟩), fin _ [] (by simp) w1 w2 w3 h'⟩
+  | cons m rest =>
+    have hrest : ∀ m' ∈ rest, m' ≠ .fnna ∧ m' ≠ .nona := fun m' hm' => hms m' (by simp [hm'])
+    by_cases hf : m = .ffill
+    · subst hf
+      simp only [reindexFill] at h
+      split at h
+      · obtain ⟨w1, w2, w3⟩ := reindexFrameL_wf f idx .ffill lim
+        exact ⟨_, rest, h, Or.inl ⟨rfl, rfl⟩, fin _ rest hrest w1 w2 w3 h⟩
+      · cases h
+    · by_cases hb : m = .bfill
+      · subst hb
+        simp only [reindexFill] at h
+        split at h
+        · obtain ⟨w1, w2, w3⟩ := reindexFrameL_wf f idx .bfill lim
+          exact ⟨_, rest, h, Or.inr (Or.inl ⟨rfl, rfl⟩), fin _ rest hrest w1 w2 w3 h⟩
+        · cases h
+      · have h' : fillna (m :: rest) lim (reindexFrame f idx Option.none) = .ok g := by
+          rw [← reindex_other_then_fill f idx (m :: rest) lim (by simp [hf, hb])]; exact h
+        obtain ⟨w1, w2, w3⟩ := reindex_index f idx Option.none
+        exact ⟨_, m :: rest, h', Or.inr (Or.inr ⟨rfl, rfl⟩), fin _ (m :: rest) hms w1 w2 w3 h'⟩
+
+/-! ### method lists inside `df_sync` / `df_reindex` / `presync`: containers -/
+
+/-- one direction given as a WORD (the statement's None / ffill / bfill): the general functions are the ones every theorem
+above speaks about -/
+theorem syncM_single (j : Join) (m : Option Dir) (ch : Option How) (t : Tree) :
+    syncJM j true (fillMethods m) ch t = syncJ j m ch t := syncJM_single j m ch t
+
+theorem presyncM_single (j : Join) (m : Option Dir) (args kwargs : List (String × Tree)) :
+    presyncCallM j true (fillMethods m) args kwargs = presyncCall j m args kwargs := presyncCallM_single j m args kwargs
+
+theorem reindexM_single (ix : Index) (m : Option Dir) (t : Tree) :
+    reindexTreeM ix true (fillMethods m) Option.none t = reindexTree ix m t := reindexTreeM_single ix m t
+
+/-- the container structure and every non-timeseries member survive whatever the method (list) -/
+theorem syncM_shape (j : Join) (bare : Bool) (ms : List Method) (ch : Option How) (t t' : Tree)
+    (h : syncJM j bare ms ch t = .ok t') : t'.skel = t.skel := by
+  cases t with
+  | leaf l => simp [syncJM] at h; subst h; rfl
+  | node tag kids =>
+    simp only [syncJM] at h
+    split at h
+    · cases h
+    · split at h
+      · cases h
+      · rename_i ix _ t1 h1
+        cases ch with
+        | none => simp at h; subst h; exact skel_reindexTreeM _ _ _ _ _ _ h1
+        | some c =>
+          simp only at h
+          rw [skel_mapM _ (recolumnLeaf_skel _) _ _ h]
+          exact skel_reindexTreeM _ _ _ _ _ _ h1
+
+/-- `df_sync` / `df_reindex` with a method LIST, position by position: member `k` of the result is member `k` of the input
+reindexed onto the joint index with the whole list - or, where `loops` hands the list out over a list / tuple container of the
+same length (`_loop.py:_item_by_i`), with ONE method of the list (`SplitImage`) - and then put on the common column set -/
+theorem syncM_pointwise (j : Join) (bare : Bool) (ms : List Method) (ch : Option How) (tag : Tag) (kids : List (String × Tree))
+    (t' : Tree) (h : syncJM j bare ms ch (.node tag kids) = .ok t') :
+    ∃ ix, dfIndexJ j (Tree.node tag kids).flatTop = .ok ix ∧
+    t'.leaves.length = (Tree.node tag kids).leaves.length ∧
+    ∀ (k : Nat) (l : Leaf), (Tree.node tag kids).leaves[k]? = some l →
+      ∃ l1 l', SplitImage (fun ms' => reindexLeafM ix ms' Option.none) ms l l1 ∧
+        colPass ch (multiCols (Tree.node tag kids).flatTop) l1 = .ok l' ∧ t'.leaves[k]? = some l' := by
+  simp only [syncJM] at h
+  split at h
+  · cases h
+  · rename_i ix hix
+    split at h
+    · cases h
+    · rename_i t1 h1
+      have p1 := pairs_reindexTreeM _ _ _ _ _ _ h1
+      refine ⟨ix, hix, ?_⟩
+      cases ch with
+      | none =>
+        simp at h; subst h
+        refine ⟨p1.length_eq, fun k l hk => ?_⟩
+        obtain ⟨l1, hl1, hr⟩ := p1.get k l hk
+        exact ⟨l1, l1, hr, rfl, hl1⟩
+      | some c =>
+        simp only at h
+        have p2 := pairs_mapM _ _ _ h
+        have p := p1.comp p2
+        refine ⟨p.length_eq, fun k l hk => ?_⟩
+        obtain ⟨l', hl', l1, hr, hc⟩ := p.get k l hk
+        exact ⟨l1, l', hr, hc, hl'⟩
+
+/-- a BARE method (a word, a number - never handed out): a timeseries member comes out as `reindexFill` of itself onto the
+joint index, i.e. (by `reindex_then_fill`) the as-of join followed by C12's `fillna` of the rest -/
+theorem syncM_member (j : Join) (ms : List Method) (ch : Option How) (tag : Tag) (kids : List (String × Tree)) (t' : Tree)
+    (h : syncJM j true ms ch (.node tag kids) = .ok t') (k : Nat) (s : Bool) (f : Frame) (idx : List Int)
+    (hix : dfIndexJ j (Tree.node tag kids).flatTop = .ok (.times idx))
+    (hk : (Tree.node tag kids).leaves[k]? = some (.ts s f)) :
+    ∃ g l', reindexFill f idx ms Option.none = .ok g ∧
+      colPass ch (multiCols (Tree.node tag kids).flatTop) (.ts s g) = .ok l' ∧ t'.leaves[k]? = some l' := by
+  obtain ⟨ix, hix', _, hp⟩ := syncM_pointwise j true ms ch tag kids t' h
+  rw [hix] at hix'; cases hix'
+  obtain ⟨l1, l', ⟨ms', hms', hr⟩, h2, h3⟩ := hp k _ hk
+  -- with a bare method the image is taken with the whole list: re-derive it from the plain recursion
+  simp only [syncJM, hix] at h
+  split at h
+  · cases h
+  · rename_i t1 h1
+    have p1 := pairs_reindexTreeM_bare _ _ _ _ _ h1
+    cases hrf : reindexFill f idx ms Option.none with
+    | error e =>
+      obtain ⟨l1', _, hr'⟩ := p1.get k _ hk
+      simp [reindexLeafM, hrf, Except.map] at hr'
+    | ok g =>
+      cases ch with
+      | none =>
+        simp at h; subst h
+        obtain ⟨l1', hl1', hr'⟩ := p1.get k _ hk
+        simp [reindexLeafM, hrf, Except.map] at hr'; subst hr'
+        exact ⟨g, _, rfl, rfl, hl1'⟩
+      | some c =>
+        simp only at h
+        have p := p1.comp (pairs_mapM _ _ _ h)
+        obtain ⟨l'', hl'', l1', hr', hc⟩ := p.get k _ hk
+        simp [reindexLeafM, hrf, Except.map] at hr'; subst hr'
+        exact ⟨g, l'', rfl, hc, hl''⟩
+
+/-! ### `presync(f)(..., join = <name of a parameter of f>)`: the index of that argument (lines 1026-1028) -/
+
+/-- the index an argument provides: a timeseries its own index, a `pd.Index` itself, an array its length, `dict(index = x)` the
+index of `x`; a scalar / string / None raises `ValueError` -/
+theorem named_index (s : Bool) (f : Frame) (xs : Col) (v : Val) (kids : List (String × Tree)) (k : String) :
+    indexOfArg (.leaf (.ts s f)) = .ok (.times f.idx) ∧
+    indexOfArg (.leaf (.arr xs)) = .ok (.len xs.length) ∧
+    (asPdIndex v = Option.none → indexOfArg (.leaf (.other v)) = .error .value) ∧
+    (kids.find? (·.1 == "index") = some (k, .leaf (.ts s f)) → indexOfArg (.node .dict kids) = .ok (.times f.idx)) := by
+  refine ⟨rfl, rfl, fun h => by simp [indexOfArg, h], fun h => by simp [indexOfArg, h]⟩
+
+/-- when `join` names a supplied argument, the positional arguments (a tuple) and the keyword arguments (a dict) keep their
+structure, and member `k` of either is that member reindexed onto THE INDEX OF THE NAMED ARGUMENT - whatever indices the
+other arguments have (no intersection / union is taken) -/
+theorem presync_named_member (name : String) (ms : List Method) (pnames : List String) (args kwargs : List (String × Tree))
+    (a k : Tree) (h : presyncNamed name true ms pnames args kwargs = some (.ok (a, k))) :
+    ∃ key v ix, ((pnames.zip (args.map (·.2))) ++ kwargs).find? (·.1 == name) = some (key, v) ∧ indexOfArg v = .ok ix ∧
+      a.skel = (Tree.node .tuple args).skel ∧ k.skel = (Tree.node .dict kwargs).skel ∧
+      (∀ (i : Nat) (l : Leaf), (Tree.node .tuple args).leaves[i]? = some l →
+        ∃ l', reindexLeafM ix ms Option.none l = .ok l' ∧ a.leaves[i]? = some l') ∧
+      (∀ (i : Nat) (l : Leaf), (Tree.node .dict kwargs).leaves[i]? = some l →
+        ∃ l', reindexLeafM ix ms Option.none l = .ok l' ∧ k.leaves[i]? = some l') := by
+  simp only [presyncNamed] at h
+  split at h
+  · cases h
+  · rename_i key v hfind
+    simp only [Option.some.injEq] at h
+    split at h
+    · cases h
+    · rename_i ix hix
+      simp only [presyncOnto] at h
+      split at h
+      · cases h
+      · rename_i a' ha
+        split at h
+        · cases h
+        · rename_i k' hk
+          cases h
+          refine ⟨key, v, ix, hfind, hix, skel_reindexTreeM _ _ _ _ _ _ ha, skel_reindexTreeM _ _ _ _ _ _ hk, ?_, ?_⟩
+          · intro i l hl
+            obtain ⟨l', h1, h2⟩ := (pairs_reindexTreeM_bare ix ms Option.none _ _ ha).get i l hl
+            exact ⟨l', h2, h1⟩
+          · intro i l hl
+            obtain ⟨l', h1, h2⟩ := (pairs_reindexTreeM_bare ix ms Option.none _ _ hk).get i l hl
+            exact ⟨l', h2, h1⟩
+
+/-- `join` names no supplied argument: the branch is not taken (the policy-word / explicit-index path `presyncCallM` applies) -/
+theorem presync_named_absent (name : String) (bare : Bool) (ms : List Method) (pnames : List String)
+    (args kwargs : List (String × Tree)) (h : ∀ p ∈ (pnames.zip (args.map (·.2))) ++ kwargs, p.1 ≠ name) :
+    presyncNamed name bare ms pnames args kwargs = Option.none := by
+  have : ((pnames.zip (args.map (·.2))) ++ kwargs).find? (·.1 == name) = Option.none := by
+    rw [List.find?_eq_none]; intro p hp; simpa using h p hp
+  simp [presyncNamed, this]
+
+/-! ### dict members keyed 'index' -/
+
+/-- the key of a dict member plays no role in what the joint index sees: `_list` opens every dict (so `df_index`'s test
+`_is_dict_indexed(member)` never fires on a member), a dict keyed 'index' inside a container is an ordinary dict whose values
+- a timeseries under 'index' included - are members like any other; `sync_shape` / `syncM_shape` keep the keys -/
+theorem index_key_ordinary (g : String → String) (tag : Tag) (kids : List (String × Tree)) :
+    (Tree.node tag (kids.map fun k => (g k.1, k.2))).flatTop = (Tree.node tag kids).flatTop ∧
+    (tag ≠ .tuple → (Tree.node tag (kids.map fun k => (g k.1, k.2))).flat = (Tree.node tag kids).flat) := by
+  refine ⟨flatKids_rekey g kids, fun ht => ?_⟩
+  cases tag with
+  | tuple => exact (ht rfl).elim
+  | list => exact flatKids_rekey g kids
+  | dict => exact flatKids_rekey g kids
+
 /-! ### non-vacuity -/
 
 example : joinIndex .inner [[1, 2, 4, 7], [2, 3, 4], [0, 2, 4, 9]] = some [2, 4] := by decide
@@ -718,5 +1129,41 @@ example : let s1 : Frame := { idx := [1, 2, 4], cols := [("", [some 1, Option.no
   decide
 example : alignArr 2 [some 1, some 2, some 3] = [some 2, some 3] ∧
     alignArr 4 [some 1, some 2] = [Option.none, Option.none, some 1, some 2] ∧ alignArr 0 [some 1] = [] := by decide
+
+/-- `limit`: requested labels 1,3 land on the observation at 0, labels 5,6,7 on the one at 4; with `limit = 1` only the first
+of each group (from the observation outwards) is filled, bfill counts from the right; an exact match is never counted -/
+example : let f : Frame := { idx := [0, 2, 4, 8], cols := [("", [some 1, Option.none, some 3, some 4])] }
+    f.Sorted ∧ SortedL [1, 3, 4, 5, 6, 7, 9, 11] ∧
+    (reindexFrameL f [1, 3, 4, 5, 6, 7, 9, 11] .ffill (some 1)).cols =
+      [("", [some 1, Option.none, some 3, some 3, Option.none, Option.none, some 4, Option.none])] ∧
+    (reindexFrameL f [1, 3, 4, 5, 6, 7, 9, 11] .bfill (some 2)).cols =
+      [("", [some 3, some 3, some 3, Option.none, some 4, some 4, Option.none, Option.none])] ∧
+    between [1, 3, 4, 5, 6, 7, 9, 11] 4 7 = 2 := by
+  decide
+/-- a method list: as-of ffill, then bfill of what is left, then the constant 0 (values are 4·x) -/
+example : let f : Frame := { idx := [2, 4], cols := [("", [some 1, some 3])] }
+    (reindexFill f [0, 1, 2, 3, 5] [.ffill, .const 0] (some 1)).toOption =
+      some { idx := [0, 1, 2, 3, 5], cols := [("", [some 0, Option.none, some 1, some 1, some 3])] } ∧
+    (reindexFill f [0, 1, 2, 3, 5] [.const 0] Option.none).toOption =
+      some { idx := [0, 1, 2, 3, 5], cols := [("", [some 0, some 0, some 1, some 0, some 0])] } := by
+  decide
+/-- `loops` hands `['ffill', 'bfill']` out over a LIST of two series (first ffill, second bfill), not over a dict -/
+example : let s1 : Frame := { idx := [0, 4], cols := [("", [some 1, some 3])] }
+    let s2 : Frame := { idx := [2], cols := [("", [some 5])] }
+    (match reindexTreeM (.times [0, 2, 4]) false [.ffill, .bfill] Option.none (.node .list [("", .leaf (.ts true s1)), ("", .leaf (.ts true s2))]) with
+     | .ok t' => t'.leaves.map fun l => match l with | .ts _ f => f.cols | _ => []
+     | .error _ => []) = [[("", [some 1, some 1, some 3])], [("", [some 5, some 5, Option.none])]] ∧
+    (match reindexTreeM (.times [0, 2, 4]) false [.ffill, .bfill] Option.none (.node .dict [("a", .leaf (.ts true s1)), ("b", .leaf (.ts true s2))]) with
+     | .ok t' => t'.leaves.map fun l => match l with | .ts _ f => f.cols | _ => []
+     | .error _ => []) = [[("", [some 1, some 1, some 3])], [("", [some 5, some 5, some 5])]] := by
+  decide
+/-- `presync(f)(a, b, join='p1')`: both arguments on the index of the second, no intersection taken -/
+example : let s1 : Frame := { idx := [0, 4], cols := [("", [some 1, some 3])] }
+    let s2 : Frame := { idx := [2, 4, 6], cols := [("", [some 5, Option.none, some 7])] }
+    (match presyncNamed "p1" true [] ["p0", "p1"] [("", .leaf (.ts true s1)), ("", .leaf (.ts true s2))] [] with
+     | some (.ok (a, _)) => a.leaves.map fun l => match l with | .ts _ f => some f | _ => Option.none
+     | _ => []) =
+      [some { idx := [2, 4, 6], cols := [("", [Option.none, some 3, Option.none])] }, some s2] := by
+  decide
 
 end Pyg.Props.C03
